@@ -187,6 +187,15 @@ func (c *Conn) Served(d time.Duration) bool {
 // ID returns the service id (0 if refused or not yet served).
 func (c *Conn) ID() uint64 {
 	c.mu.Lock()
+	id := c.SvcID
+	c.mu.Unlock()
+	if id != 0 {
+		return id
+	}
+	// the CONNACK reaches the client before the server side has returned from its
+	// connect handling and recorded the id: wait for that (bounded)
+	c.Served(2 * time.Second)
+	c.mu.Lock()
 	defer c.mu.Unlock()
 	return c.SvcID
 }
